@@ -483,6 +483,25 @@ pub fn tx_monitors(h: &Hist, ms: &mut MonState, b: &Obs, line: &str, res: &str, 
         }
         // a farm of the before-state that is gone, or whose identifier now names a different farm (an expired
         // farm closed by this very create_farm, whose id may be reused), involves refunds to third parties
+        // C11: a farm is closed automatically (by somebody's create_farm) only once it has expired: nothing left to
+        // claim, or the end of its last epoch + expiration time is in the past
+        if ok && tx.kind == "createfarm" {
+            let cfgq = h.w.app.wrap().query_wasm_smart::<mantra_dex_std::farm_manager::Config>(h.w.a("fm"), &mantra_dex_std::farm_manager::QueryMsg::Config {}).ok();
+            for f in b.farms.iter() {
+                let gone = match a.farms.iter().find(|g| g.identifier == f.identifier) {
+                    None => true,
+                    Some(g) => g.owner != f.owner || g.start_epoch != f.start_epoch || g.claimed_amount < f.claimed_amount,
+                };
+                if gone {
+                    let r: Result<mantra_dex_std::epoch_manager::EpochResponse, _> = h.w.app.wrap()
+                        .query_wasm_smart(h.w.a("em"), &mantra_dex_std::epoch_manager::QueryMsg::Epoch { id: f.preliminary_end_epoch + 1 });
+                    if let (Ok(r), Some(c)) = (r, cfgq.as_ref()) {
+                        let remaining = f.farm_asset.amount.u128().saturating_sub(f.claimed_amount.u128());
+                        out.push(format!("mon_farm_autoclose {} {} {} {}", remaining, r.epoch.start_time.nanos(), c.farm_expiration_time, b.now_ns));
+                    }
+                }
+            }
+        }
         let farm_closed = b.farms.iter().any(|f| match a.farms.iter().find(|g| g.identifier == f.identifier) {
             None => true,
             Some(g) => g.owner != f.owner || g.start_epoch != f.start_epoch || g.farm_asset.denom != f.farm_asset.denom || g.claimed_amount < f.claimed_amount,
